@@ -39,6 +39,13 @@ CHECKS = {
                      "The real NameGenerator is compared with the model on random request sequences, and the real pipeline is run on closed CFGs whose block names lie in the generator's namespace and across dict write/read round trips.", ref="§7 C18",
                 note="Trusted: Lean kernel + standard axioms; translator harness/translate.py (kinds it cannot resolve are reported as a broken tie); str(int) = Nat.repr on naturals (exercised). "
                      "`reserve`'s regular-expression parsing is exercised by the clobber runs, not modelled in Lean. Reload between stages is currently blocked by to_dict raising TypeError on restructured graphs (see C15)."),
+    "C13": dict(cat="proof", tech="Lean 4: reference definitions with soundness/characterisation theorems; real queries compared with them and with the Lean model of each algorithm on all graphs of a small scope",
+                text="Scfg/Spec/GraphDefs.lean defines reachability, SCCs, dominance, head, headers/entries, exiting/exits by closure / by definition; Scfg.C13.reachRef_sound, reachRef_complete_bounded, headRef_spec, findHead_eq_ref, exitingRef_spec relate them to path predicates. "
+                     "Every answer of the real find_head, compute_scc, find_headers_and_entries, find_exiting_and_exits, is_reachable_dfs, _doms, _post_doms, _imm_doms is compared with the definition and with the Lean model of the algorithm (Tarjan, dominator fix-point) on ALL directed graphs of the scope.", ref="§7 C13",
+                note="Trusted: Lean kernel + standard axioms. Per-instance (exhaustive small scope + random) for the comparison itself; completeness of the closure for paths longer than |level|+2 (no repeated node on a shortest path) and the specs of sccRef/domsRef w.r.t. inductive path predicates are not formalised — stated as _partial."),
+    "C16": dict(cat="proof", tech="Lean 4: model of both iterators compared order-exactly with the code; specification predicates with soundness theorems judged on every real enumeration",
+                text="Scfg/Model/Iter.lean models SCFG.__iter__ and region_view_iterator; for every (sub)graph at every depth, before and after every stage, the real enumerations are compared with the model and judged by iterSpecOK / viewSpecOK, whose meaning Scfg.C16.iterSpecOK_sound / viewSpecOK_sound prove.", ref="§7 C16",
+                note="Trusted: Lean kernel + standard axioms; exporter. The quantifier over graphs is by enumeration (as C01); an a-priori completeness theorem of the BFS under wf is not yet proved."),
 }
 
 NOT_YET = {}
